@@ -48,6 +48,7 @@ func mustLoad(repo string) *Prog {
 	}
 	p.ComputeModSets()
 	p.ComputeParamRooted()
+	p.ComputeReturnsNil()
 	p.ComputeExecReach()
 	p.ComputeInitOnly()
 	p.ComputeAppendOnly()
